@@ -54,7 +54,7 @@ def cases(tier, seed):
                     flips = [(pt, ['record_inputs'] if pt == 'problem' else [])]
                     out.append({'model': mname, 'attach': [pt], 'driver': drv, 'hist': hist,
                                 'pattern': [list(pat[0]), list(pat[1])], 'flips': flips,
-                                'palette': seed % 3})
+                                'palette': seed % 3, 'all_cases': tier == 'thorough'})
     return out
 
 
@@ -105,9 +105,10 @@ def check_case(sc):
     if reader is None:
         return {'evals': 1, 'outcome': 'no_cases', 'violations': []}
     names = reader.list_cases(out_stream=None)
-    # a spread of cases: first, middle, last (all of them in the thorough tier is not needed: the
-    # cases of one source only differ in values)
+    # quick: a spread of cases (first, middle, last); thorough: every case (up to 12 per source)
     pick = sorted(set([0, len(names) // 2, len(names) - 1])) if names else []
+    if sc.get('all_cases'):
+        pick = list(range(len(names)))[:12]
     pairs = loads = traces = nontriv = 0
     buf = io.StringIO()
     for ci in pick:
